@@ -15,7 +15,7 @@ for d in _out/[0-9]*; do
   V=$d/VERIFY.txt; : > $V
   run=$d/demo/RUN.md
   # copy / mkdir commands and the cargo test command(s) from RUN.md
-  grep -E "^\s*(mkdir -p|cp ) ?" $run | grep -v "^#" | sed 's/^\s*//' | sort -u > $d/.setup.sh
+  grep -E "^\s*(mkdir -p|cp ) ?" $run | grep -v "^#" | sed 's/^\s*//' | awk '!seen[$0]++' > $d/.setup.sh
   grep -E "^\s*cargo test" $run | sed 's/^\s*//' | sort -u > $d/.test.sh
   echo "setup: $(cat $d/.setup.sh | tr '\n' ';')" >> $V
   echo "test:  $(cat $d/.test.sh | tr '\n' ';')" >> $V
